@@ -24,6 +24,17 @@ def item (codec cls : String) (i : Nat) : Bytes :=
 
 def indexOf (b : Bytes) : String := String.ofList ((b.takeWhile (· ≠ 124)).map fun x => Char.ofNat x.toNat)
 
+/-- a caller that hands items over with `feed` and carries on after a refusal (`sendEach` without the flush) -/
+def feedEach (lim : Nat) (p : Pub) : List (Bool × Bytes) → Pub × List Bool
+  | [] => (p, [])
+  | (e, a) :: rest =>
+    match p.pollReady noCompression lim e with
+    | .ok p1 =>
+      match p1.startSend bytesCodec noCompression lim a with
+      | .ok p2 => ((feedEach lim p2 rest).1, true :: (feedEach lim p2 rest).2)
+      | _ => ((feedEach lim p1 rest).1, false :: (feedEach lim p1 rest).2)
+    | _ => ((feedEach lim p.dropBatch rest).1, false :: (feedEach lim p.dropBatch rest).2)
+
 /-- `pp <codec> <algo> <batch> <n> <class> <fin>`: which items (by index) the subscriber yields, in order, and which
     `send`s the publisher refused. Codec and compressor do not matter to the model beyond being lossless (C14) and
     the sizes of what they produce: without compression the frame limit regenerated from the source applies; with
@@ -36,9 +47,11 @@ def run (t : List String) : String :=
     let lim : Nat := if algo = "-" then Selium.Gen.Frame.maxMessageSize else 2 ^ 62
     let items : List (Bool × Bytes) := (List.range (nat! n)).map fun i => (false, item codec cls i)
     let p0 : Pub := { batch := size.map (fun _ => []), size := size.getD 0 }
-    let r := p0.sendEach bytesCodec noCompression lim items
+    -- `f` / `r`: the items are handed over with `feed` (poll_ready + start_send, no flush); `r`: one bare poll_ready follows
+    let r := if fin = "f" || fin = "r" then feedEach lim p0 items else p0.sendEach bytesCodec noCompression lim items
+    let r := if fin = "r" then ((match r.1.pollReady noCompression lim false with | .ok p' => p' | _ => r.1.dropBatch), r.2) else r
     let refused := (r.2.zipIdx.filter fun x => !x.1).map fun x => toString x.2
-    let final := if fin = "y" then r.1.finish noCompression lim else .ok r.1
+    let final := if fin = "n" then .ok r.1 else r.1.finish noCompression lim
     let pf := match final with | .ok pf => pf | _ => r.1.dropBatch.flush
     let outs := subscriberOutputs bytesCodec noCompression pf.wire
     let idx := outs.filterMap fun r => match r with | .ok b => some (indexOf b) | _ => none
